@@ -39,9 +39,9 @@ func init() {
 }
 
 func c04host(out *rec.Out, idx int, rng *rec.Rng, stats map[string]int) {
-	w0, w1 := idx&1, (idx>>1)&1   // value of w at the start / set by the host
-	when := (idx >> 2) & 1         // 0: host writes while the token waits at R (right before the second decision); 1: while it waits at B
-	early := (idx >> 3) & 1        // 1: the host also flips b before the FIRST decision
+	w0, w1 := idx&1, (idx>>1)&1 // value of w at the start / set by the host
+	when := (idx >> 2) & 1      // 0: host writes while the token waits at R (right before the second decision); 1: while it waits at B
+	early := (idx >> 3) & 1     // 1: the host also flips b before the FIRST decision
 	g := eng.NewGraph()
 	st := g.Add("startEvent", "start", "")
 	a := g.Add("task", "A", "")
